@@ -11,7 +11,9 @@ RULE = ("Triple/Quad/Graph streams of both term encoders are driven statement by
         "statement is made unencodable by each cause (unsupported term object, typed literal while the datatype table is "
         "disabled, statement tuple too short, a string protobuf cannot encode); the statements that follow re-use the rejected "
         "statement's IRIs and repeat the terms of its already-encoded slots; in one case in five the caller also declares a namespace "
-        "sharing an IRI of the rejected statement right after the rejection. Oracle: either every later call raises and the "
+        "sharing an IRI of the rejected statement right after the rejection; the caller continues either by calling the same "
+        "methods, or as a batch loop that calls stream.enroll() before each statement, or by handing each later statement to "
+        "stream_frames(stream, ...). Oracle: either every later call raises and the "
         "bytes (incl. a final manual flush) are a valid stream that decodes to the statements accepted before the failure, "
         "or the bytes decode (reference decoder with lenient graph bracketing, and pyjelly's own parser) to exactly the "
         "accepted statements in order; frames handed out before the failure decode to a prefix. Non-trivial: the rejection "
@@ -87,8 +89,15 @@ def _wrap(integ, terms):
     return tuple(terms)
 
 
-def drive(integ: str, cfg: dict, stmts: list, fault_at: int, fault, ns_after=None):
+CONTINUATIONS = ["direct", "enroll-each", "stream-frames-each"]
+
+
+def drive(integ: str, cfg: dict, stmts: list, fault_at: int, fault, ns_after=None, via: str = "direct"):
     """Catch-and-continue loop. -> dict(accepted, outcomes, frames (bytes), frames_before_failure)
+
+    via: how the caller goes on AFTER the rejected statement - 'direct' keeps calling stream.triple/quad/graph;
+    'enroll-each' is a batch loop that calls stream.enroll() before every statement (idempotent on a healthy stream);
+    'stream-frames-each' hands each later statement to the integration's stream_frames(stream, [statement]) (TRIPLES/QUADS).
 
     ns_after = (prefix, iri): right after the faulty statement the caller also declares a namespace on the same stream
     (what re-entering stream_frames with declarations enabled does)."""
@@ -118,7 +127,16 @@ def drive(integ: str, cfg: dict, stmts: list, fault_at: int, fault, ns_after=Non
             i += 1
             continue
         try:
-            if phys == 1:
+            if i > fault_at and via == "enroll-each":
+                stream.enroll()
+            if i > fault_at and via == "stream-frames-each" and phys != 3:
+                if integ == "generic":
+                    from pyjelly.integrations.generic.serialize import stream_frames as _sf
+                else:
+                    from pyjelly.integrations.rdflib.serialize import stream_frames as _sf
+                for fr in _sf(stream, iter([native])):
+                    got(fr)
+            elif phys == 1:
                 got(stream.triple(native))
             elif phys == 2:
                 got(stream.quad(native))
@@ -155,9 +173,9 @@ def decode_frames(frames: list):
     return data, refdec.decode(wire.dec_stream(data, True), strict_graphs=False)
 
 
-def judge(integ: str, cfg: dict, stmts: list, fault_at: int, fault, ns_after=None):
+def judge(integ: str, cfg: dict, stmts: list, fault_at: int, fault, ns_after=None, via: str = "direct"):
     """-> (witness or None, info)"""
-    run = drive(integ, cfg, stmts, fault_at, fault, ns_after)
+    run = drive(integ, cfg, stmts, fault_at, fault, ns_after, via)
     out = run["outcomes"]
     info = {"rejected": out[fault_at][0] == "raised" if fault_at < len(out) else False,
             "later_calls": len(out) - fault_at - 1}
@@ -231,7 +249,8 @@ def fault_sites(integ: str, phys: int, st: tuple, datatypes_disabled: bool):
     yield (arity - 1, None, "tuple-too-short")
 
 
-def run_case(ctx, rng):
+def make_case(rng):
+    """-> (integ, cfg, stmts, dt_disabled)"""
     integ = rng.choice(["generic", "rdflib"])
     phys = rng.choice([1, 2, 3])
     arity = 3 if phys == 1 else 4
@@ -245,6 +264,13 @@ def run_case(ctx, rng):
     names, prefixes, _d = gen.preset_for(rng, stmts, phys)
     cfg = {"physical": phys, "frame_size": rng.choice([1, 2, 4, 250]), "preset": (max(names, 12), prefixes, 0 if dt_disabled else 8),
            "logical": pj.FLAT_LOGICAL[phys], "delimited": True, "generalized": True, "rdf_star": True}
+    return integ, cfg, stmts, dt_disabled
+
+
+def run_case(ctx, rng):
+    integ, cfg, stmts, dt_disabled = make_case(rng)
+    phys = cfg["physical"]
+    n = len(stmts)
     positions = list(range(n))
     for pos in positions:
         if ctx.out_of_time():
@@ -261,8 +287,11 @@ def run_case(ctx, rng):
                 if iris:
                     ns_after = ("nsx", rng.choice(iris))
             cfg_run = dict(cfg, ns=True) if ns_after else cfg
+            via = rng.choice(["direct", "direct", "enroll-each", "stream-frames-each"])
+            if via == "stream-frames-each" and (phys == 3 or ns_after):
+                via = "enroll-each"
             try:
-                w, info = judge(integ, cfg_run, seq, pos, fault, ns_after)
+                w, info = judge(integ, cfg_run, seq, pos, fault, ns_after, via)
             except Exception as e:  # noqa: BLE001
                 ctx.inconc(f"harness error in C20 judge: {type(e).__name__}: {e}")
                 continue
@@ -275,6 +304,7 @@ def run_case(ctx, rng):
                 continue
             ctx.observe("rejections")
             ctx.observe(f"cause:{fault[2]}")
+            ctx.observe(f"continued-via:{via}")
             ctx.observe(f"slot:{'spog'[fault[0]]}{'/quoted' if fault[1] == 'quoted' else ''}")
             partial = fault[0] > 0 or fault[1] == "quoted" or fault[2] == "tuple-too-short" or \
                 (fault[2] == "unencodable-string")
@@ -285,11 +315,11 @@ def run_case(ctx, rng):
                 ctx.observe("stream-refused-further-use" if info.get("refused") else "stream-continued")
             if w is not None:
                 w.update({"integration": integ, "cfg": cfg_run, "stmts": T.to_json(seq), "fault_at": pos,
-                          "fault": list(fault), "partial": partial, "ns_after": list(ns_after) if ns_after else None})
+                          "fault": list(fault), "partial": partial, "ns_after": list(ns_after) if ns_after else None, "via": via})
                 if ns_after:
                     ctx.observe("violations-with-namespace-declaration-after-rejection")
                 ctx.violation(w)
-            ctx.case((integ, sorted(cfg.items()), seq, pos, fault), partial,
+            ctx.case((integ, sorted(cfg.items()), seq, pos, fault, via), partial,
                      sample={"integration": integ, "physical": phys, "cause": fault[2], "slot": "spog"[fault[0]],
                              "nested": fault[1], "position": pos, "statements": n, "refused": info.get("refused")})
 
@@ -315,7 +345,7 @@ def replay(w: dict):
     stmts = list(T.from_json(w["stmts"]))
     f = w["fault"]
     r, _info = judge(w["integration"], cfg, stmts, w["fault_at"], (f[0], f[1], f[2]),
-                     tuple(w["ns_after"]) if w.get("ns_after") else None)
+                     tuple(w["ns_after"]) if w.get("ns_after") else None, w.get("via", "direct"))
     return r
 
 
